@@ -15,6 +15,7 @@ RULE = ('hypothesis: directions = random density matrices (full / low rank), ran
         'lengths within the solver tolerance 1e-4. Non-trivial = generic direction and (for models / ordering) k>=2; distinct = (sub-check, dims, k, flags, batch).'
         " The CHA object is solved a second time for another direction without re-initialisation; SDP verdicts that come with a solver warning 'inaccurate' are inconclusive for the outside-fails clause."
         ' Directions at Gell-Mann distance 3e-8 from the maximally mixed state and integer-dtype directions give the same rays as their rescaled / float copies.')
+RULE += ' Half of the convex-hull (LP) cases pass a caller-chosen reset threshold (3e-3): the returned weights still sum to one and rebuild the boundary state.'
 ASSUMPTIONS = ['SDP values are accurate to about 1e-5 in this image (CLARABEL/SCS); orderings are judged at 1e-4',
                'CHABoundaryBagging: a cvxpy SolverError (no ECOS here) is inconclusive; only returned decompositions are judged',
                'the k=1 extension boundary is the state-space boundary']
